@@ -11,7 +11,7 @@
 From Coq Require Import Reals ZArith List String.
 From PyLib Require Import PyVal PyBuiltins Ideal.
 From Gen Require Import M_base M_Angle M_Epoch M_Interpolation M_Coordinates M_Earth.
-From Proofs.C18 Require Import C18_spec C18_defs C18_bridge C18_dist C18_main C18_par C18_parbound.
+From Proofs.C18 Require Import C18_spec C18_defs C18_bridge C18_dist C18_main C18_par C18_parbound C18_gc C18_gcm C18_parvec C18_parm.
 Import ListNotations.
 Open Scope R_scope.
 
@@ -162,6 +162,85 @@ Theorem C18_parallax_declination_bound : forall dec H rc rs k,
 Proof. intros dec H rc rs k Hq. exact (topo_dec_sin_bound (rad dec) (rad H) rc rs k Hq). Qed.
 
 Redirect "C18_parallax_declination_bound.assumptions" Print Assumptions C18_parallax_declination_bound.
+(* ---- great circle.  [central_angle l1 p1 l2 p2] = 2 atan(sqrt(s/c)) is the angle at the centre of the
+   sphere between the two points (degrees in, radians out): it satisfies the haversine formula.
+   [proper_pair]: neither coincident (s = 0) nor antipodal (c = 0). *)
+Theorem C18_central_angle : forall l1 p1 l2 p2, proper_pair l1 p1 l2 p2 ->
+  0 < central_angle l1 p1 l2 p2 < PI /\
+  sin (central_angle l1 p1 l2 p2 / 2) * sin (central_angle l1 p1 l2 p2 / 2)
+  = sin ((rad p1 - rad p2) / 2) * sin ((rad p1 - rad p2) / 2)
+    + cos (rad p1) * cos (rad p2) * (sin ((rad l1 - rad l2) / 2) * sin ((rad l1 - rad l2) / 2)).
+Proof. exact central_angle_spec. Qed.
+
+(* Earth.distance D of the generated model lies between a sigma (1 - 2f) and a sigma (1 + f), sigma the
+   central angle, for EVERY proper pair and every ellipsoid a > 0, f >= 0; for f <= 0.00359 (both built-in
+   ellipsoids) it is within 0.6 % of the great circle on the sphere of mean radius (2a + b)/3.
+   (With the equatorial radius a as sphere radius the deviation reaches 2f = 0.67 % along a meridian
+   near the equator, so the clause can only hold for the mean radius.) *)
+Theorem C18_distance_great_circle : forall a f w, 0 < a -> 0 <= f -> forall l1 p1 l2 p2,
+  proper_pair l1 p1 l2 p2 ->
+  exists D,
+    Earth_distance Rops (earth a f w) (VFloat l1) (VFloat p1) (VFloat l2) (VFloat p2)
+    = VTuple [VFloat D; VFloat (Rround_nd (D * f * f) 0)] /\
+    a * central_angle l1 p1 l2 p2 * (1 - 2 * f) <= D <= a * central_angle l1 p1 l2 p2 * (1 + f) /\
+    (f <= 359 / 100000 ->
+     Rabs (D - (2 * a + semi_minor a f) / 3 * central_angle l1 p1 l2 p2)
+     <= 6 / 1000 * ((2 * a + semi_minor a f) / 3 * central_angle l1 p1 l2 p2)).
+Proof. exact great_circle_float. Qed.
+Theorem C18_distance_great_circle_angle : forall a f w, 0 < a -> 0 <= f -> forall l1 t1 p1 t2 l2 t3 p2 t4,
+  proper_pair l1 p1 l2 p2 ->
+  exists D,
+    Earth_distance Rops (earth a f w) (ang l1 t1) (ang p1 t2) (ang l2 t3) (ang p2 t4)
+    = VTuple [VFloat D; VFloat (Rround_nd (D * f * f) 0)] /\
+    a * central_angle l1 p1 l2 p2 * (1 - 2 * f) <= D <= a * central_angle l1 p1 l2 p2 * (1 + f) /\
+    (f <= 359 / 100000 ->
+     Rabs (D - (2 * a + semi_minor a f) / 3 * central_angle l1 p1 l2 p2)
+     <= 6 / 1000 * ((2 * a + semi_minor a f) / 3 * central_angle l1 p1 l2 p2)).
+Proof. exact great_circle_angle. Qed.
+Theorem C18_builtin_flattening : 1 / 298.257 <= 359 / 100000 /\ 1 / 298.257223563 <= 359 / 100000.
+Proof. exact builtin_flattening. Qed.
+
+(* ---- parallax: the displacement of Earth.parallax_correction.  Measure: the angle theta between
+   u = (cos dec, 0, sin dec), the geocentric direction (x axis towards the body's right ascension), and
+   v, the direction with right-ascension offset topo_dalpha and declination topo_dec, i.e. exactly the two
+   expressions of C18_parallax_correction_closed_form (WGS84 observer at latitude lat, height h).
+   Hypothesis: distance > C = (1 + |h|/a) sin(8.794'') (about 4.3e-5 AU).  Then
+     sin^2 theta = |u x v|^2 <= q^2,  q = rho sin(8.794'')/distance <= C/distance < 1,  cos theta = u.v > 0,
+   i.e. theta <= asin(rho sin(8.794'')/distance): never more than the horizontal parallax of an observer at
+   geocentric distance rho (rho <= 1 + |h|/a; rho = 1 at sea level on the equator), and <= asin(C/distance),
+   which tends to 0 as the distance grows.  Every declination and hour angle, poles of the body included. *)
+Theorem C18_parallax_displacement_bound : forall dec H lat h dist, par_C h < Rabs dist ->
+  let rc := rho_cos a_wgs f_wgs h (rad lat) in
+  let rs := rho_sin a_wgs f_wgs h (rad lat) in
+  let k := par_k dist in
+  let q := sqrt (rc * rc + rs * rs) * Rabs k in
+  let da := topo_dalpha dec H rc k in
+  let dd := topo_dec dec H rc rs k in
+  let vx := cos dd * cos da in let vy := cos dd * sin da in let vz := sin dd in
+  let ux := cos (rad dec) in let uz := sin (rad dec) in
+  (0 * vz - uz * vy) * (0 * vz - uz * vy) + (uz * vx - ux * vz) * (uz * vx - ux * vz)
+    + (ux * vy - 0 * vx) * (ux * vy - 0 * vx) <= q * q
+  /\ q <= par_C h / Rabs dist /\ par_C h / Rabs dist < 1
+  /\ 0 < ux * vx + 0 * vy + uz * vz.
+Proof. exact parallax_displacement. Qed.
+
+(* the observer's geocentric distance: rho <= 1 + |h|/a for every latitude, 0 <= f <= 1 *)
+Theorem C18_rho_bound : forall a f h phi, 0 <= f <= 1 ->
+  sqrt (rho_cos a f h phi * rho_cos a f h phi + rho_sin a f h phi * rho_sin a f h phi) <= 1 + Rabs (h / a).
+Proof. exact rho_bound. Qed.
+
+(* the correction in right ascension in the form the code computes it (Meeus 40.2), A > 0 *)
+Theorem C18_parallax_dalpha_tan : forall dec H rc k, 0 < par_A dec H rc k ->
+  tan (topo_dalpha dec H rc k) = - rc * k * sin (rad H) / (cos (rad dec) - rc * k * cos (rad H)).
+Proof. exact parallax_dalpha_tan. Qed.
+
+Redirect "C18_central_angle.assumptions" Print Assumptions C18_central_angle.
+Redirect "C18_distance_great_circle.assumptions" Print Assumptions C18_distance_great_circle.
+Redirect "C18_distance_great_circle_angle.assumptions" Print Assumptions C18_distance_great_circle_angle.
+Redirect "C18_builtin_flattening.assumptions" Print Assumptions C18_builtin_flattening.
+Redirect "C18_parallax_displacement_bound.assumptions" Print Assumptions C18_parallax_displacement_bound.
+Redirect "C18_rho_bound.assumptions" Print Assumptions C18_rho_bound.
+Redirect "C18_parallax_dalpha_tan.assumptions" Print Assumptions C18_parallax_dalpha_tan.
 Redirect "C18_parallax_correction_closed_form.assumptions" Print Assumptions C18_parallax_correction_closed_form.
 Redirect "C18_builtin.assumptions" Print Assumptions C18_builtin.
 Redirect "C18_earth_object.assumptions" Print Assumptions C18_earth_object.
